@@ -240,17 +240,32 @@ func ruleCommitSet(c *Ctx) {
 			k++
 			c.touch(f)
 			detail := fmt.Sprintf("committed-id registration #%d happens for the marker record after its write", k)
-			if f != wl.fn {
-				c.undecided(fnName(f), detail, c.P.ipos(mu), "registration outside the function that contains the commit write loop")
-				return
+			evBlock := mu.Block()
+			ff := f
+			if ff != wl.fn {
+				// a helper called from the write-loop function: the call site stands for the registration
+				var site ssa.CallInstruction
+				nSites := 0
+				for _, s := range c.P.CallersOf(ff) {
+					if s.Parent() == wl.fn {
+						site = s
+						nSites++
+					}
+				}
+				if nSites != 1 {
+					c.undecided(fnName(ff), detail, c.P.ipos(mu), "registration outside the function that contains the commit write loop")
+					return
+				}
+				evBlock = site.Block()
+				ff = wl.fn
 			}
 			var writes []*ssa.Call
-			calls(f, func(ci ssa.CallInstruction) {
+			calls(ff, func(ci ssa.CallInstruction) {
 				if call, ok := ci.(*ssa.Call); ok && calleeIs(&call.Call, modPath, "DataFile", "WriteAt") {
 					writes = append(writes, call)
 				}
 			})
-			okEdges := nilEdges(f, true, func(x ssa.Value) bool {
+			okEdges := nilEdges(ff, true, func(x ssa.Value) bool {
 				ex, ok := resolve1(x).(*ssa.Extract)
 				if !ok {
 					return false
@@ -262,7 +277,7 @@ func ruleCommitSet(c *Ctx) {
 				}
 				return false
 			})
-			afterWrite := len(okEdges) > 0 && edgesDominate(f, okEdges, mu.Block())
+			afterWrite := len(okEdges) > 0 && edgesDominate(ff, okEdges, evBlock)
 			// last-index edge: idx == len-1 in linear normal form
 			sym := func(v ssa.Value) string {
 				if sameValue(v, wl.idx) {
@@ -274,18 +289,18 @@ func ruleCommitSet(c *Ctx) {
 				return pathOf(v)
 			}
 			want := lin{terms: map[string]int64{"IDX": 1, "len(PW)": -1}, c: 1} // idx - (len-1) == 0
-			lastEdges := eqEdges(f, true, func(x, y ssa.Value) bool {
+			lastEdges := eqEdges(ff, true, func(x, y ssa.Value) bool {
 				d := linAdd(linOf(x, sym), linOf(y, sym), -1)
 				return d.String() == want.String() || linScale(d, -1).String() == want.String()
 			})
-			onLast := len(lastEdges) > 0 && edgesDominate(f, lastEdges, mu.Block())
+			onLast := len(lastEdges) > 0 && edgesDominate(ff, lastEdges, evBlock)
 			switch {
 			case afterWrite && onLast:
-				c.ok(fnName(f), detail, c.P.ipos(mu), "dominated by index == len-1 and by the nil result of WriteAt")
+				c.ok(fnName(ff), detail, c.P.ipos(mu), "dominated by index == len-1 and by the nil result of WriteAt")
 			case !afterWrite:
-				c.bad(fnName(f), detail, c.P.ipos(mu), "the transaction id is put into DB.committedTxIds before its records (in particular the marker record) were written: if the commit then fails the id stays registered, Get/Merge treat the failed transaction's records as committed, and Merge rewrites them under a fresh committed id")
+				c.bad(fnName(ff), detail, c.P.ipos(mu), "the transaction id is put into DB.committedTxIds before its records (in particular the marker record) were written: if the commit then fails the id stays registered, Get/Merge treat the failed transaction's records as committed, and Merge rewrites them under a fresh committed id")
 			default:
-				c.bad(fnName(f), detail, c.P.ipos(mu), "the transaction id is put into DB.committedTxIds for a record that is not the marker record: a later write of the same transaction can still fail")
+				c.bad(fnName(ff), detail, c.P.ipos(mu), "the transaction id is put into DB.committedTxIds for a record that is not the marker record: a later write of the same transaction can still fail")
 			}
 		})
 	}
